@@ -1,6 +1,8 @@
 """C08 — conversion results depend only on declared equivalences, not on query history."""
 from __future__ import annotations
 
+from fractions import Fraction
+
 from .. import core, model, synth
 
 ID = "C08"
@@ -28,8 +30,15 @@ def gen_history(rng, tag, shipped):
     # re-declarations with a different value (the last one wins) and bridges to shipped units
     extra = []
     if rng.random() < 0.6 and sysm.edges:
-        a, k, rhs = rng.choice(sysm.edges)
-        if len(rhs) == 1 and rhs[0][1] == 1:
+        # re-declare, with another value, an equivalence whose unit occurs in no other declaration:
+        # the declarations stay mutually consistent, only the size of that one unit changes
+        mentions = {}
+        for a, k, rhs in sysm.edges:
+            for n in [a] + [b for b, _ in rhs]:
+                mentions[n] = mentions.get(n, 0) + 1
+        leaves = [(a, k, rhs) for a, k, rhs in sysm.edges if len(rhs) == 1 and rhs[0][1] == 1 and (mentions[a] == 1 or mentions[rhs[0][0]] == 1)]
+        if leaves:
+            a, k, rhs = rng.choice(leaves)
             extra.append(["declare", ["u", a], synth.enc_fraction(k * rng.choice([2, 4, 8])), sysm.rhs_term(rhs)])
     if shipped:
         for d, target in (("length", "meter"), ("time", "second"), ("mass", "gram")):
@@ -74,12 +83,37 @@ def gen_history(rng, tag, shipped):
     return ({"modules": mods, "ops": ops1}, {"modules": mods, "ops": ops2}, finals, final_start, after_flush, base_start, len(defs), len(decls))
 
 
+class Num:
+    """a returned magnitude compared *numerically*: the route a plan takes may depend on the
+    order in which compound units happened to be interned, which changes a Decimal's
+    trailing zeros (and, on shipped non-binary ratios, the last float bit) but not the value"""
+
+    def __init__(self, enc):
+        self.enc = tuple(enc)
+        self.value = model.dec_mag(enc)
+
+    def __eq__(self, other):
+        if not isinstance(other, Num) or self.enc[0] != other.enc[0]:
+            return False
+        a, b = Fraction(self.value), Fraction(other.value)
+        return a == b or abs(a - b) <= max(abs(a), abs(b)) * Fraction(1, 10**12)
+
+    def __ne__(self, other):
+        return not self.__eq__(other)
+
+    def __hash__(self):
+        return hash(self.enc[0])
+
+    def __repr__(self):
+        return f"{self.value!r}"
+
+
 def outcome(r):
     if "raise" in r:
         return ("raise", r["raise"])
     v = r["ok"]
     if isinstance(v, dict):
-        return ("ok", tuple(v["mag"]), v.get("unit_is_target"))
+        return ("ok", Num(v["mag"]), v.get("unit_is_target"))
     return ("ok", v)
 
 
@@ -129,6 +163,10 @@ def run(ctx):
                     "earlier_answers": [list(map(str, o)) for _, o in asked_before][:4], "ops_interleaved": spec1["ops"] if len(spec1["ops"]) < 120 else "(long)"}
             if f1 != f2:
                 kind = "stale-failure" if f1[0] == "raise" and f2[0] == "ok" else "stale-value" if f1[0] == "ok" and f2[0] == "ok" else "stale-success"
+                if f1b == f1:
+                    # emptying the memo tables does not help: the difference sits in the intern tables
+                    # (factor order of compound units built by earlier queries), not in a memo
+                    kind = "interning-order:" + ("failure-vs-value" if f1[0] != f2[0] else "value")
                 ctx.violation(f"C08:history-dependent:{kind}",
                               f"after the same declarations {model.show(q[2])} -> ... answers {f1} in the process that had asked before, {f2} in a fresh process", case)
             elif f1 != f1b:
